@@ -648,6 +648,7 @@ Proof.
                   (if ini then ck_ei k else ck_er k, if ini then ck_er k else ck_ei k,
                    if ini then ck_ai k else ck_ar k, if ini then ck_ar k else ck_ai k)) by (destruct ini; reflexivity).
   rewrite Hkeys in Hx. cbv beta iota in Hx.
+  bpure Hx u2b Hspi4 guard_ok. clear Hspi4.
   binv Hx v1 s2 Hv. apply draw_verdict_ok in Hv. destruct Hv as (r1 & _ & ->).
   bupd Hx emit_ok. bpure Hx u3 Hv1 guard_ok. subst v1.
   binv Hx v2 s2 Hv. apply draw_verdict_ok in Hv. destruct Hv as (r2 & _ & ->).
